@@ -39,6 +39,8 @@ type cfg struct {
 	// Directed: the stale-suffix scenario (a window in which several transactions are pre-committed before the next sync,
 	// the first one with value bytes, the following ones without)
 	Directed bool
+	// Script: behaviours of spec/StoreCrash.tla are replayed; nothing is synced or committed except by explicit calls
+	Script bool
 }
 
 func pick(rng *rand.Rand, run int) cfg {
@@ -69,6 +71,9 @@ func (c cfg) opts() *store.Options {
 	sf := time.Millisecond
 	if c.Directed {
 		sf = 40 * time.Millisecond
+	}
+	if c.Script {
+		sf = time.Hour
 	}
 	o := store.DefaultOptions().WithSynced(true).WithSyncFrequency(sf).
 		WithEmbeddedValues(c.Embedded).WithWriteTxHeaderVersion(c.HdrVersion).
@@ -274,7 +279,9 @@ type recovered struct {
 
 func (w *workload) recoverImage(dir string, acks []ack, committedAt uint64, rec *recovered) {
 	pn, hung, msg := vh.Guard(30*time.Second, func() {
-		st, err := store.Open(dir, w.c.opts())
+		jc := w.c
+		jc.Script = false // the recovered store is judged with its syncer running
+		st, err := store.Open(dir, jc.opts())
 		if err != nil {
 			rec.Detail = "open: " + err.Error()
 			return
@@ -819,10 +826,25 @@ func main() {
 	outp := flag.String("out", "", "ndjson trace output")
 	thorough := flag.Bool("thorough", false, "all crash modes at every point")
 	only := flag.Int("only", -1, "run only this workload index (debugging)")
+	scripts := flag.String("scripts", "", "JSON file with behaviours of spec/StoreCrash.tla to replay (script mode)")
 	flag.Parse()
 	out, err := os.Create(*outp)
 	vh.Must(err, "create trace file")
 	res := vh.NewResult()
+	if *scripts != "" {
+		var sf scriptFile
+		vh.ReadJSON(*scripts, &sf)
+		for i, sc := range sf.Scripts {
+			if *only >= 0 && i != *only {
+				continue
+			}
+			runScript(*dir, i, sc, res, out)
+		}
+		out.Close()
+		res.Distinct = res.Evaluations
+		res.Emit()
+		return
+	}
 	for i := 0; i < *runs; i++ {
 		if *only >= 0 && i != *only {
 			continue
